@@ -88,6 +88,12 @@ theorem fanout_ew (subs : List (Nat × Nat)) : ∀ (b : B) (m : Msg),
     · rw [deliverConn_ew, ih]
     · rw [ih]
 
+theorem fanoutLive_ew (subs : List (Nat × Nat)) (b : B) (m : Msg) :
+    fanoutLive (eraseWills b) m subs = (eraseWills (fanoutLive b m subs).1, (fanoutLive b m subs).2) := by
+  unfold fanoutLive
+  simp only
+  rw [fanout_ew]
+
 theorem retainStep_ew (b : B) (m : Msg) :
     retainStep (eraseWills b) m = (eraseWills (retainStep b m).1, (retainStep b m).2) := by
   unfold retainStep
@@ -111,7 +117,7 @@ theorem onPublish_ew (b : B) (m : Msg) :
   rw [ht]
   split
   · rfl
-  · rw [fanout_ew]
+  · rw [fanoutLive_ew]
 
 theorem releaseAll_ew (l : List QEntry) : ∀ b : B,
     releaseAll (eraseWills b) l = (eraseWills (releaseAll b l).1, (releaseAll b l).2) := by
